@@ -15,7 +15,8 @@ RULE = ("(a) the real TeeProcessor driven by a scripted pipe: every byte string 
         "pipes + tee threads) and in a parallel slot (log file descriptors); (c) args lists <=2 and options dicts <=2 over the "
         "primitive alphabet {'a','a b','','\\u00fc',0,-1,1.5,True,False} x success/failure: args.json/options.json decode to the "
         "declared values and exist exactly when non-empty (successful runs); (d) real-process conformance: a real `cond run` whose task "
-        "is a real process writing 0..1 MiB to both streams. non-trivial = non-empty stream or record; distinct = distinct input"
+        "is a real process writing 0..1 MiB to both streams; (e) executions interrupted by SIGINT/SIGTERM to cond: the logs hold what the "
+        "command had written when cond exits (an os._exit() in the code under test is modelled: the on-disk state at that instant counts). non-trivial = non-empty stream or record; distinct = distinct input"
         ' Parallelizable experiments are also executed sequentially (default and --jobs 1), where forwarding is required.')
 ASSUMPTIONS = [
     "'any length' is exhaustive only up to the listed sizes; beyond that the copy loop is size-oblivious",
@@ -74,6 +75,11 @@ def items(tier):
         out.append({"kind": "records", "combos": combos[i:i + 12]})
     for size in (0, 1, 4096, 65536, 65537, 200_000, 1_048_576):
         out.append({"kind": "real", "size": size})
+    # an execution that is interrupted (SIGINT / SIGTERM to cond while the task runs) is an execution too: whatever the command
+    # had written when cond exits is in its logs
+    for so in ("hello-out\n", "BIG", ""):
+        for se in ("hello-err\n", ""):
+            out.append({"kind": "interrupted", "out": so, "err": se})
     # the two tee jobs of one TeeProcessor under a controlled scheduler: all interleavings with <= 2 (3) preemptions
     for oc in (["AAAA"], ["AAAA", "BB"], ["A" * 5000]):
         for ec in (["xxxx"], ["xxxx", "yy"], ["x" * 5000]):
@@ -185,6 +191,38 @@ def run_item(item, tier):
                     res["sigs"].add(explore.sig([item["out"], item["err"], pos, mode]))
         res["sample"] = {"stdout_chunks": [c[:10] for c in item["out"]], "stderr_chunks": [c[:10] for c in item["err"]], "interleavings": len(positions),
                          "modes": ["sequential (tee)", "parallel slot (log fd)"]}
+    elif item["kind"] == "interrupted":
+        big = bytes((i * 13 + 5) % 256 for i in range(70000)).decode("latin-1")
+        so = big if item["out"] == "BIG" else item["out"]
+        se = item["err"]
+        for mode in ("sequential", "slot"):
+            for signame in ("SIGINT", "SIGTERM"):
+                res["evals"] += 1
+                cond = 'run_experiment(name="e", run="./e.sh", parallelizable=%s)\n' % (mode == "slot")
+                scn = {"files": {"COND": cond}, "argv": ["run", "//:e"] + (["-j", "2"] if mode == "slot" else []),
+                       "behaviours": {"//:e": {"stdout": so, "stderr": se, "sigint_while_running": True, "abort_signal": signame}}}
+                o = explore.execute(scn, name="c10i", timeout=20)
+                art = {"kind": "interrupted", "out": item["out"], "err": item["err"]}
+                sp = [e for e in o.vk.log if e[0] == "spawn"]
+                if not sp:
+                    viol("interrupted:not-run", "the experiment was not started", art)
+                    continue
+                outdir = sp[0][3]["out"]
+                res["sigs"].add(explore.sig(["interrupted", item["out"], item["err"], mode, signame]))
+                for fname, want in (("stdout.log", so.encode("latin-1")), ("stderr.log", se.encode("latin-1"))):
+                    if o.res.hard_exit is not None:
+                        # the process ended with os._exit(): what counts is what was on disk at that instant
+                        got = o.res.hard_exit[1].get(os.path.relpath(os.path.join(outdir, fname), os.path.join(o.root, "cond-out")))
+                    else:
+                        try:
+                            with open(os.path.join(outdir, fname), "rb") as f:
+                                got = f.read()
+                        except OSError:
+                            got = None
+                    if got != want:
+                        viol("interrupted:%s:log" % mode, "%s to cond while the task runs (%s mode): %s holds %s bytes, the command had written %d"
+                             % (signame, mode, fname, "no" if got is None else len(got), len(want)), art)
+        res["sample"] = {"stdout": item["out"][:10], "stderr": item["err"][:10], "interrupted_by": ["SIGINT", "SIGTERM"], "modes": ["sequential", "slot"]}
     elif item["kind"] == "records":
         from .. import graphs
         for a, o_ in item["combos"]:
